@@ -66,6 +66,65 @@ def run(ctx):
         "stalled_daemon_process": dict(stall, cells=len(stall["cells"])),
         "sched": cov,
     }
+    # a long-lived client whose segment file is replaced under it (removed and created anew, as a service
+    # manager does with a run-time directory) by a daemon that then stalls or dies before its first
+    # publication: the file at the path holds a header with version or generation 0 for ever. Every call
+    # must still come back, whatever the age and status of the record the client holds.
+    import os
+    import subprocess
+    from . import client as _cl
+    repl = {"calls": 0, "answers": {}, "runs": 0}
+    script, ncalls = [], 0
+    for status in (1, 2, 0):
+        for age in (0, 6, 1200):
+            for ver, g in ((0, 0), (1, 0), (0, 2), (1, 2)):
+                script.append("W 2 1000 0 2000 0 5000 50000 %d" % status)
+                script.append("O")
+                script.append("N 1700001000 0 1000 5")
+                script.append("N %d 0 %d 5" % (1700001000 + age, 1000 + age))
+                script.append("R %d %d" % (ver, g))
+                for extra in (0, 0, 1, 7, 1300):
+                    script.append("N %d 0 %d 5" % (1700001000 + age + extra, 1000 + age + extra))
+                script.append("C")
+                ncalls += 7
+    sp = os.path.join(ctx.tmp, "c18-replace.txt")
+    with open(sp, "w") as f:
+        f.write("\n".join(script) + "\n")
+    for api, cmd in (("rust", [_cl.build_clientsim(ctx, True), "script", "--script", sp, "--shm", "/dev/shm/cbverif-c18r-r-%d" % os.getpid()]),
+                     ("c", [_cl.build_cdriver(ctx, sanitize=False), "script", sp, "/dev/shm/cbverif-c18r-c-%d" % os.getpid()])):
+        pr = subprocess.Popen(cmd, stdout=subprocess.PIPE, stderr=subprocess.PIPE, text=True, env=ctx.env)
+        try:
+            out, err = pr.communicate(timeout=120)
+            hung = False
+        except subprocess.TimeoutExpired:
+            # what is the process doing? (a busy loop or a sleep loop, both are "not back")
+            try:
+                st = open("/proc/%d/stat" % pr.pid).read().split()
+                doing = "state %s, utime %s stime %s ticks" % (st[2], st[13], st[14])
+            except OSError:
+                doing = "?"
+            pr.kill()
+            out, err = pr.communicate()
+            hung = True
+        try:
+            os.unlink(cmd[-1])
+        except OSError:
+            pass
+        lines = [ln for ln in out.splitlines() if ln.startswith(("OK ", "ERR ", "NOCTX"))]
+        repl["runs"] += 1
+        repl["calls"] += len(lines)
+        for ln in lines:
+            k = api + ":" + " ".join(ln.split()[:2]) if ln.startswith("ERR") else api + ":OK status " + ln.split()[-1]
+            repl["answers"][k] = repl["answers"].get(k, 0) + 1
+        if hung:
+            done = len(lines)
+            viol.append({"sig": "call-never-returns-after-segment-file-replaced", "detail": "%s client: call %d of a script did not return within 120 s (the whole script takes milliseconds); %s. Script block %d: a client holding a record, the segment file then removed and created anew with a header that is not initialised (version/generation 0), nothing published afterwards" % (api, done + 1, doing, done // 7), "replay": sp})
+        elif pr.returncode < 0 and -pr.returncode in (4, 6, 7, 8, 11):
+            viol.append({"sig": "client-crashes-after-segment-file-replaced", "detail": "%s client died of signal %d after %d answers: %s" % (api, -pr.returncode, len(lines), err[-300:]), "replay": sp})
+        elif pr.returncode != 0 or len(lines) != ncalls:
+            if not inconclusive:
+                inconclusive = "replaced-file script: %s client exited %d with %d of %d answers: %s" % (api, pr.returncode, len(lines), ncalls, err[-200:])
+    coverage["segment_file_replaced_under_a_client"] = repl
     # threads and forked children in a C client (own contexts, handed-over contexts, inherited contexts)
     from . import client as _client
     _mv, _ms = _client.run_mt(ctx, "C18", 2.0 if ctx.quick() else 20.0)
